@@ -4,6 +4,7 @@
     every run for two feature sets (Gen/GenTs.v). No proofs here. *)
 From DicomV Require Export Model.TsRegistryBase.
 From DicomV Require Export Gen.GenTs.
+From Coq Require Import String Ascii.   (* only for the compact correspondence cases below; not exported *)
 Open Scope N_scope.
 
 (** [Codec<D, R, W>], forgetting the adapters themselves. *)
@@ -102,23 +103,45 @@ Definition get (m : list ts_row) (uid : str) : option ts_row :=
 (** the two feature sets of Gen/GenTs.v *)
 Definition observed (k : N) : list ts_row := fst (nth (N.to_nat k) feature_sets ([], [])).
 Definition declared (k : N) : list ts_row := snd (nth (N.to_nat k) feature_sets ([], [])).
-Definition model_registry (k : N) : list ts_row := build_registry (declared k).
+Definition MODEL_REGISTRIES : list (list ts_row) := map (fun f => build_registry (snd f)) feature_sets.
+Definition model_registry (k : N) : list ts_row := nth (N.to_nat k) MODEL_REGISTRIES [].
 
 Definition same_rows (a b : list ts_row) : bool :=
-  (N.of_nat (length a) =? N.of_nat (length b))
+  (N.of_nat (List.length a) =? N.of_nat (List.length b))
   && forallb (fun x => existsb (row_eqb x) b) a && forallb (fun x => existsb (row_eqb x) a) b.
 
 (** UIDs named by the property *)
 Definition UID_IMPLICIT_VR_LE : str := [49;46;50;46;56;52;48;46;49;48;48;48;56;46;49;46;50].        (* 1.2.840.10008.1.2 *)
 Definition UID_EXPLICIT_VR_BE : str := [49;46;50;46;56;52;48;46;49;48;48;48;56;46;49;46;50;46;50].  (* 1.2.840.10008.1.2.2 *)
 
-(** Correspondence cases: feature set, query, what the implementation answered. *)
+(** Correspondence cases: feature set, query, what the implementation answered.
+    Compact forms (shards parse much faster): the query is an ASCII string literal followed by the
+    remaining code points; the answer is coded, 0 = None, 1 + i = row i of [observed fs] (the
+    harness uses the code only when the returned transfer syntax dumps to exactly that row). *)
+Fixpoint codes_of_string (s : string) : str :=
+  match s with
+  | EmptyString => []
+  | String a s' => N_of_ascii a :: codes_of_string s'
+  end.
+Definition decode_row (fs code : N) : option (option ts_row) :=
+  if code =? 0 then Some None
+  else match nth_error (observed fs) (N.to_nat (code - 1)) with Some r => Some (Some r) | None => None end.
+
 Inductive case :=
+| G (fs : N) (prefix : string) (rest : str) (code : N)
+| R (fs : N) (i : N)
 | GetCase (fs : N) (query : str) (r : option ts_row)
 | RowCase (fs : N) (r : ts_row).
 
+Definition check_row (fs : N) (r : ts_row) : bool := existsb (row_eqb r) (model_registry fs) && row_consistent r.
 Definition check_case (c : case) : bool :=
   match c with
+  | G fs p rest code =>
+      match decode_row fs code with
+      | Some r => opt_eqb row_eqb (get (model_registry fs) (codes_of_string p ++ rest)) r
+      | None => false
+      end
+  | R fs i => match nth_error (observed fs) (N.to_nat i) with Some r => check_row fs r | None => false end
   | GetCase fs q r => opt_eqb row_eqb (get (model_registry fs) q) r
-  | RowCase fs r => existsb (row_eqb r) (model_registry fs) && row_consistent r
+  | RowCase fs r => check_row fs r
   end.
